@@ -269,7 +269,7 @@ def saveSer (s0 : State) (o : Obj) : State :=
   match s0.entry o.res with
   | some e =>
     let blob := (s0.root o).toBase
-    let s' := s0.setEntry o.res { e with contents := blob }
+    let s' := s0.setEntry o.res { e with contents := blob, hash := if e.fmeta.isNone then .leaf .null else e.hash }
     { s' with size := s'.size + encLen s0.flen blob - encLen s0.flen e.contents }
   | none =>
     let s' := initEntrySer s0 o
